@@ -109,6 +109,7 @@ def make_cases(ctx, first):
                 seed.append(dict(path="a/_uploads", dir=True))
             w = gen.World(rng, conf2, repos=["a", "a/b"], profile=PROFILE)
             w.add(dict(kind="freeze", mode=mode, impl=dict(op="sleep", secs=0), model="(skip)"))
+            w.add(special("snapshot"))          # before the first request: index loading and referrer conversion come after
             for r, (lk, tg) in expect_tags.items():
                 for t, d in sorted(tg.items()):
                     x = manifest_get(r, t)
